@@ -25,6 +25,39 @@ Fixpoint string_of_bytes (l : list Z) : string :=
 (* strings that are not plain ASCII travel as hex *)
 Definition sx (h : string) : string := string_of_bytes (unhex h).
 
+(* ---- template mode (non-nil EvalContext) -------------------------------------------
+   json/structure.go expression.Value with a context parses every JSON string — string
+   values AND the keys of object VALUES — as a native template.  The generator only writes
+   literal templates, in which "$${" and "%%{" stand for "${" and "%{".  Property names read
+   as attribute names, block types or labels are NOT templates: so the un-escaping belongs
+   to evaluation (here), not to the JSON value handed to the body model. *)
+Fixpoint unesc_tmpl (s : string) : string :=
+  match s with
+  | EmptyString => EmptyString
+  | String a r =>
+      match r with
+      | String b (String c r2) =>
+          if ((Ascii.eqb a "$"%char && Ascii.eqb b "$"%char) || (Ascii.eqb a "%"%char && Ascii.eqb b "%"%char))
+             && Ascii.eqb c "{"%char
+          then String a (String c (unesc_tmpl r2))
+          else String a (unesc_tmpl r)
+      | _ => String a (unesc_tmpl r)
+      end
+  end.
+
+Fixpoint unesc_jv (v : jvalue) : jvalue :=
+  match v with
+  | JStr s => JStr (unesc_tmpl s)
+  | JArr l => JArr (map unesc_jv l)
+  | JObj ms => JObj (map (fun m => (unesc_tmpl (fst m), unesc_jv (snd m))) ms)
+  | _ => v
+  end.
+
+(* the JSON body implementation evaluated with (tmpl = true) or without a context *)
+Definition json_sem_t (tmpl : bool) : BodySem jvalue jbody :=
+  {| bs_impl := json_impl; bs_child := jchild;
+     bs_eval := fun v => jexpr_val (if tmpl then unesc_jv v else v) |}.
+
 (* observed: attributes (name, value, evaluation reported an error), blocks
    (type, labels, subtree), Content has errors, PartialContent has errors.
    At a JustAttributes level both flags are JustAttributes' error-ness. *)
@@ -83,22 +116,28 @@ Fixpoint tree_match (skip : bool) (m o : otree) {struct m} : bool :=
   end.
 
 Record c03case := mkCase {
-  cS : stree; cC : cfg; cJ : jvalue;
+  cS : stree; cC : cfg; cJ : jvalue;   (* cJ: the JSON document as written (escapes included) *)
+  cTmpl : bool;       (* evaluated with a non-nil EvalContext: JSON strings are templates *)
   cAdm : bool;        (* the generator claims: j is an admissible encoding of c under S *)
   cSkip : bool;       (* attribute values are outside the value model (inexact numbers, NFC) *)
   cOJ : otree;        (* observed on the JSON body *)
   cON : otree         (* observed on the native body *)
 }.
 
+(* the JSON value the relation speaks about: in template mode an admissible document
+   spells every string of the configuration escaped; names of an admissible document
+   carry no template sequence, so un-escaping the whole document is harmless there *)
+Definition enc_view (k : c03case) : jvalue := if cTmpl k then unesc_jv (cJ k) else cJ k.
+
 Definition check_c03_case (k : c03case) : bool :=
-  tree_match (cSkip k) (mtree json_sem (cS k) (jroot (cJ k))) (cOJ k) &&
+  tree_match (cSkip k) (mtree (json_sem_t (cTmpl k)) (cS k) (jroot (cJ k))) (cOJ k) &&
   tree_match (cSkip k) (mtree native_sem (cS k) (native_of (cC k))) (cON k) &&
   (if cAdm k
-   then json_encodes_b (cS k) (cC k) (cJ k) && tree_match false (cOJ k) (cON k)
+   then json_encodes_b (cS k) (cC k) (enc_view k) && tree_match false (cOJ k) (cON k)
    else true).
 
 Definition check_c03_cases (l : list c03case) : list Z := failing check_c03_case l.
 
 (* indices of the cases the theorems of Props/C03.v apply to (json_encodes holds) *)
 Definition c03_applicable (l : list c03case) : list Z :=
-  failing (fun k => negb (json_encodes_b (cS k) (cC k) (cJ k))) l.
+  failing (fun k => negb (json_encodes_b (cS k) (cC k) (enc_view k))) l.
